@@ -446,7 +446,7 @@ func init() {
 	register(&core.Check{
 		ID:    "C18",
 		Level: "fault_enumeration",
-		Rule: "per run one seeded world whose platform reports the sample quote's RTMRs, certified by a generated PKI; ParseCcelWithTdQuote with the repository's sample CCEL under: the honest control (no policy / full matching policy), 7 verification-gate faults (foreign-key signatures, broken binding, unsigned changes, untrusted root, revocation without collateral), 15 policy-gate faults (each expectation off by one bit / one step, nil policy), EVERY single-bit change of RTMR0..3 in validly re-signed quotes (quick: 4 runs tile the 1536 bits; thorough: all per world) and 6 digest flips inside the log. " +
+		Rule: "per run one seeded world whose platform reports the sample quote's RTMRs, certified by a generated PKI; ParseCcelWithTdQuote with the repository's sample CCEL under: the honest control (no policy / full matching policy), 7 verification-gate faults (foreign-key signatures, broken binding, unsigned changes, untrusted root, revocation without collateral), 17 policy-gate faults (each expectation off by one bit / one step, nil policy) each in the full policy and in a sparse one (tape-chosen other expectations unset, unset RTMR entries keeping their place), every failing gate also with an empty, absent and cut event log, EVERY single-bit change of RTMR0..3 in validly re-signed quotes (quick: 4 runs tile the 1536 bits; thorough: all per world) and 6 digest flips inside the log. " +
 			"distinct = gate fault name / (register, bit-in-byte)",
 		Exhaustive: true,
 		Assumptions: []string{
